@@ -7,7 +7,9 @@ import (
 	"go/token"
 	"go/types"
 	"os"
+	"regexp"
 	"strings"
+	"time"
 
 	"golang.org/x/tools/go/ssa"
 )
@@ -709,7 +711,11 @@ func c02ModeRead(c *Ctx, m *Module, rule string) {
 }
 
 // ---- rule 4: ready gate ------------------------------------------------------
-func c02ReadyGate(c *Ctx, m *Module) {
+func c02ReadyGate(c *Ctx, m *Module) { c02ReadyGateAs(c, m, "C02.ready-gate") }
+
+// c02ReadyGateAs: the ready-gate rules under another property's name (C08: a report left in
+// place after a failed attempt is found again by a later run).
+func c02ReadyGateAs(c *Ctx, m *Module, rule string) {
 	r := c.R
 	findWork := m.Func("internal/upload", "uploader.findWork")
 	n := 0
@@ -740,12 +746,13 @@ func c02ReadyGate(c *Ctx, m *Module) {
 		ok, why := projectedEquivalent(got, want, func(v string) bool {
 			return strings.Contains(v, "mode") || strings.Contains(v, "asof") || strings.Contains(v, "reportDate")
 		})
-		r.Check("C02.ready-gate", "findWork/existing report made ready", m.Pos(findWork.Pos()), ok,
+		r.Check(rule, "findWork/existing report made ready", m.Pos(findWork.Pos()), ok,
 			"an existing report is made ready iff mode==on ∧ (asof unknown ∨ report date unknown ∨ asof < report date): "+why)
 	}
-	r.Check("C02.ready-gate", "findWork/has ready-report sites", m.Pos(findWork.Pos()), n >= 1, "findWork collects left-over reports")
+	r.Check(rule, "findWork/has ready-report sites", m.Pos(findWork.Pos()), n >= 1, "findWork collects left-over reports")
 
-	c02ReadyNames(c, m, "C02.ready-gate")
+	c02ReadyNames(c, m, rule)
+	c02DatePattern(c, m, rule)
 
 	// uploadReport: future week not sent
 	ur := m.Func("internal/upload", "uploader.uploadReport")
@@ -772,7 +779,7 @@ func c02ReadyGate(c *Ctx, m *Module) {
 		want := bOr{[]BExpr{bBool{"isnil(match)"}, mkOrd("matchlen", "<", "2"), bNot{mkOrd("week", ">", "today")}}}
 		okI, why := projectedImplies(got, want, func(v string) bool { return true })
 		hasCmp := strings.Contains(got.String(), "today") && strings.Contains(got.String(), "week")
-		r.Check("C02.ready-gate", "uploadReport/future week is not sent", m.Pos(cs.Pos()), okI && hasCmp,
+		r.Check(rule, "uploadReport/future week is not sent", m.Pos(cs.Pos()), okI && hasCmp,
 			"the post must lie under ¬(week > today) (string order on the fixed-width date layout): "+why+" path condition: "+got.String())
 	}
 }
@@ -965,4 +972,46 @@ func c02SetMode(c *Ctx, m *Module) {
 	r.Check("C02.setmode", "mode file/date layout agreement", m.Pos(rd.Pos()), wlayout == dateOnly && rlayout == dateOnly, fmt.Sprintf("writer layout %q, reader layout %q, DateOnly %q", wlayout, rlayout, dateOnly))
 	r.Check("C02.setmode", "mode file/separator agreement", m.Pos(rd.Pos()), wsep != "" && wsep == rsep, fmt.Sprintf("writer separator %q, reader separator %q", wsep, rsep))
 	_ = types.Typ
+}
+
+// c02DatePattern: the pattern that finds the week in a report's file name. Both of its users
+// fail OPEN when it does not match (no date → "upload everything" in findWork, no future-week
+// test in uploadReport), so it must match every <date>.json. The pattern is a constant; it is
+// compiled here, by the checker's own regexp package (nothing of /repo runs), and matched
+// against every calendar date of 2000–2099: group 1 must be the date, and the match must be
+// anchored at the end of the name.
+func c02DatePattern(c *Ctx, m *Module, rule string) {
+	r := c.R
+	g := m.GlobalVar("internal/upload", "dateRE")
+	iv := globalSingleInit(g)
+	pat, okPat := "", false
+	if cl, ok := iv.(*ssa.Call); ok && calleeName(&cl.Call) == "regexp.MustCompile" {
+		pat, okPat = constOf(argsOf(cl)[0])
+	}
+	r.Check(rule, "dateRE is a constant pattern set once", m.Pos(g.Pos()), okPat, "dateRE must be initialised by regexp.MustCompile(<constant>) and never reassigned")
+	if !okPat {
+		return
+	}
+	re, err := regexp.Compile(pat)
+	if err != nil {
+		r.Check(rule, "dateRE compiles", m.Pos(g.Pos()), false, err.Error())
+		return
+	}
+	bad := ""
+	nDates := 0
+	for d := time.Date(2000, 1, 1, 0, 0, 0, 0, time.UTC); d.Year() < 2100 && bad == ""; d = d.AddDate(0, 0, 1) {
+		nDates++
+		ds := d.Format("2006-01-02")
+		for _, name := range []string{ds + ".json", "local." + ds + ".json", "/a/b/" + ds + ".json"} {
+			mm := re.FindStringSubmatch(name)
+			if len(mm) < 2 || mm[1] != ds {
+				bad = "does not find the date in " + name
+			}
+		}
+		if mm := re.FindStringSubmatch(ds + ".jsonx"); mm != nil {
+			bad = "matches " + ds + ".jsonx (not anchored at the end)"
+		}
+	}
+	r.Check(rule, "dateRE finds the date of every <date>.json", m.Pos(g.Pos()), bad == "",
+		fmt.Sprintf("pattern %q, %d calendar dates tried: %s", pat, nDates, bad))
 }
